@@ -2128,6 +2128,13 @@ fn create_parser_thread(
     sort_by_time: bool,
     mut plugins_active: Vec<Box<dyn Plugin + Send>>,
 ) -> ParserThreadType {
+    // verification hook: allows to shrink the channel capacities
+    #[cfg(feature = "verif_hooks")]
+    fn sync_channel<T>(
+        bound: usize,
+    ) -> (std::sync::mpsc::SyncSender<T>, std::sync::mpsc::Receiver<T>) {
+        std::sync::mpsc::sync_channel(adlt::verif::chan_cap(bound))
+    }
     let (tx_for_parse_thread, rx_from_parse_thread) = sync_channel(1024 * 1024);
     let (tx_for_lc_thread, rx_from_lc_thread) = sync_channel(512 * 1024);
     let (lcs_r, lcs_w) = evmap::Options::default()
@@ -2270,6 +2277,8 @@ fn create_parser_thread(
                 loop {
                     match dlt_msg_iterator.next() {
                         Some(msg) => {
+                            #[cfg(feature = "verif_hooks")]
+                            adlt::verif::pause(adlt::verif::Point::ParserMsg);
                             messages_processed += 1;
                             if let Err(e) =
                                 sync_sender_send_delay_if_full(msg, &tx_for_parse_thread)
